@@ -686,3 +686,10 @@ package ttlv
 //@   trusted
 //@   maypanic
 //@   pure
+
+// generic structure container: decoding fills the receiver and nothing else (assumed: the generic decoder
+// works through the reader interface and reflection-free value constructors)
+//@ func (*Struct).TagDecodeTTLV
+//@   trusted
+//@   requires v != nil && d != nil
+//@   modifies *v
